@@ -16,8 +16,10 @@ REJECT = ('TranslationError', 'TypeError', 'NotImplementedError', 'ExprEvalError
 class Program(object):
     """a query program: generator-expression source + caller scope specification
     scope: {name: ('int'|'str'|'bool', concrete_default)}; methods: list of (method name, args source) applied to the Query"""
-    def __init__(self, src, scope=None, form='string', note='', chain=None):
+    def __init__(self, src, scope=None, form='string', note='', chain=None, int_range=None):
         self.src, self.scope, self.form, self.note = src, scope or {}, form, note
+        self.int_range = int_range      # (lo, hi): all integer columns and integer scope names are assumed within this range
+                                        # (programs whose arithmetic is non-linear are only decidable on a bounded range)
         # chain: dict(filters=[lambda source...], order=[(key expr source, desc)], distinct=None|True|False,
         #             final=('list',)|('slice', a, b)|('aggr', NAME)|('first',)|('exists',)|('get',)|('page', p, s)|('limit', l, o))
         self.chain = chain
@@ -182,9 +184,11 @@ def obligation(sql_rows, py_rows, entity_result):
     for gs, vs, _ in sql_rows:
         conj.append(z3.Implies(gs, z3.Or([z3.And(g, rows_equal(vals, vs)) for g, vals in py_rows]) if py_rows else FALSE))
     if entity_result:
+        # pony's documented default: a query result is duplicate-free (DISTINCT is added where duplicates could arise) unless
+        # without_distinct() is used - callers pass entity_result=True for every such result, not only entity results
         for i in range(len(sql_rows)):
             for j in range(i):
-                conj.append(z3.Not(z3.And(sql_rows[i][0], sql_rows[j][0], same(sql_rows[i][1][0], sql_rows[j][1][0]))))
+                conj.append(z3.Not(z3.And(sql_rows[i][0], sql_rows[j][0], rows_equal(sql_rows[i][1], sql_rows[j][1]))))
     return z3.And(conj) if conj else TRUE
 
 
@@ -250,12 +254,20 @@ def decide(db, S, prog, dialect, timeout_ms=10000, extra_assumptions=(), exclude
         raise
     s = z3.Solver(); s.set('timeout', timeout_ms)
     s.add(*enc['assumptions']); s.add(*extra_assumptions)
+    if getattr(prog, 'int_range', None):
+        lo, hi = prog.int_range
+        for rows in S.tables.values():
+            for r in rows:
+                for v in r.cols.values():
+                    if v.sort == 'int': s.add(v.t >= lo, v.t <= hi)
+        for v in enc['scope_syms'].values():
+            if isinstance(v, SV) and v.sort == 'int': s.add(v.t >= lo, v.t <= hi)
     for k in exclude_regions:
         if k in enc['regions']: s.add(z3.Not(z3.Or(enc['regions'][k])))
     r = s.check()
     if r != z3.sat:
         return dict(verdict='unknown', detail='assumptions alone are %s' % r, sql=enc['sql'], time_s=time.time() - t0)
-    ob = obligation(enc['sql_rows'], enc['py_rows'], enc['entity_result'])
+    ob = obligation(enc['sql_rows'], enc['py_rows'], True)
     bad = z3.Not(ob)
     if enc['sql_errors']: bad = z3.Or(bad, z3.Or(enc['sql_errors']))
     s.push(); s.add(bad)
@@ -325,6 +337,15 @@ def real_row(item, colnames=None):
     if isinstance(item, tuple):
         return tuple(x.get_pk() if isinstance(x, Entity) else x for x in item)
     return (item,)
+
+
+def norm_list(rows):
+    """sorted LIST of normalised rows (duplicates kept)"""
+    def nv(v):
+        if isinstance(v, bool): return int(v)
+        if isinstance(v, float) and v == int(v): return int(v)
+        return v
+    return sorted((tuple(nv(v) for v in r) for r in rows), key=repr)
 
 
 def norm_rows(rows):
